@@ -92,7 +92,11 @@ def bounded(tier, seed):
             _rec(fails, known, kind, what, {'kind': 'doc', 'mode': 'json', 'text': jt})
     # date-times without a zone name and non-official versions: parser-made objects the writers must cope with
     extra = ['ver:"3.0"\na\n2020-01-01T00:00:00+05:45\n', 'ver:"3.0"\na\n2020-07-01T12:00:00Z\n', 'ver:"3.0"\na\n2020-07-01T12:00:00-04:00\n',
-             'ver:"3.0"\na\n2020-01-01T00:00:00+01:23\n', 'ver:"2.0.0"\na\n1\n', 'ver:"3.0.1"\na\n[1]\n', 'ver:"2.5"\na\n1\n', 'ver:"2.5"\na\n[1]\n']
+             'ver:"3.0"\na\n2020-01-01T00:00:00+01:23\n',
+             # the same fixed offset in both seasons within one process (a zone that fits in July need not fit in January)
+             'ver:"3.0"\na\n2019-07-15T12:00:00-09:00\n', 'ver:"3.0"\na\n2019-01-15T12:00:00-09:00\n',
+             'ver:"3.0"\na\n2019-01-15T12:00:00+11:00\n', 'ver:"3.0"\na\n2019-07-15T12:00:00+11:00\n',
+             'ver:"3.0"\na\n2019-07-15T12:00:00-08:00\n', 'ver:"3.0"\na\n2019-01-15T12:00:00-08:00\n', 'ver:"2.0.0"\na\n1\n', 'ver:"3.0.1"\na\n[1]\n', 'ver:"2.5"\na\n1\n', 'ver:"2.5"\na\n[1]\n']
     for t in extra:
         cases += 1
         for kind, what in check_text(t, hszinc.MODE_ZINC, 'extra'):
